@@ -4,28 +4,33 @@ import (
 	"context"
 	"fmt"
 
-	ipfslog "berty.tech/go-ipfs-log"
+	"github.com/ipfs/go-cid"
+	mh "github.com/multiformats/go-multihash"
+
+	"berty.tech/go-ipfs-log/entry"
 	"verifharness/fakeipfs"
 	"verifharness/world"
 )
 
+func c(i int) cid.Cid {
+	x, _ := cid.V1Builder{Codec: cid.DagCBOR, MhType: mh.SHA2_256}.Sum([]byte(fmt.Sprintf("verif-link-%d", i)))
+	return x
+}
+
 func main() {
 	ctx := context.Background()
-	for _, codec := range []world.Codec{world.CodecDefault, world.CodecLinkKey, world.CodecPB} {
-		st := fakeipfs.NewStore()
-		l, err := world.NewLog(st.API(), 0, "A", world.OrderLWW, world.IO(codec, 0), nil)
+	io := world.IO(world.CodecLinkKey, 0)
+	st := fakeipfs.NewStore()
+	id := world.Identity(0)
+	mk := func(refs []cid.Cid) {
+		e, err := entry.CreateEntryWithIO(ctx, st.API(), id, &entry.Entry{LogID: "-", Payload: []byte{}, Next: []cid.Cid{c(0)}, Refs: refs, Clock: entry.NewLamportClock(id.PublicKey, 0)}, nil, io)
 		if err != nil {
 			panic(err)
 		}
-		l.Append(ctx, []byte("hello"), nil)
-		e, err := l.Append(ctx, []byte{0xff, 0x01}, &ipfslog.AppendOptions{PointerCount: 4})
-		if err != nil {
-			panic(err)
-		}
-		raw, _ := st.Raw(e.GetHash())
-		fmt.Printf("%s %s\n%x\n%q\n\n", codec, e.GetHash(), raw, raw)
-		m, err := l.ToMultihash(ctx)
-		raw, _ = st.Raw(m)
-		fmt.Printf("manifest %s %v\n%x\n%q\n\n", m, err, raw, raw)
+		d, err := entry.FromMultihashWithIO(ctx, st.API(), e.GetHash(), id.Provider, io)
+		fmt.Println("created refs", e.GetRefs(), "read back refs", d.GetRefs(), "next", d.GetNext(), err, e.GetHash())
 	}
+	mk(nil)
+	mk([]cid.Cid{c(6)})
+	mk([]cid.Cid{c(6), c(7)})
 }
